@@ -702,7 +702,8 @@ pub fn t_names(a: &[i64]) -> Val {
 //     pub type V { vftable { [v_doc] [pub] fn v(&self); } }
 //     [e_doc] [pub] enum E: u32 [copyable] [cloneable] [defaultable] { A, [#[default]] B }     (the marker is there iff defaultable)
 // a = [ps, t_vis, fa_vis, fb_vis, g_vis, t_copyable, t_cloneable, t_defaultable, t_packed, t_doc, fa_doc, g_doc,
-//      e_vis, e_copyable, e_cloneable, e_defaultable, e_doc, v_vis, v_doc, m_doc]            (*_doc: number of doc lines, 0..2)
+//      e_vis, e_copyable, e_cloneable, e_defaultable, e_doc, v_vis, v_doc, m_doc, d_base_vis]            (*_doc: number of doc lines, 0..2)
+//     pub type D { #[base] [pub] t: T }
 fn doc_attrs(what: &str, n: i64) -> Vec<A> {
     let mut out = vec![];
     let mut i = 0;
@@ -754,6 +755,11 @@ pub fn t_marks(a: &[i64]) -> Val {
         .with_attributes(doc_attrs("module", a[19]))
         .with_definitions([
             ID::new((vis(a[1]), "T"), td),
+            // a derived type: the public function of T is re-exposed (with its doc) whatever the visibility of the base field (a[20])
+            ID::new(
+                (V::Public, "D"),
+                TD::new([TS::field((vis(if a.len() > 20 { a[20] } else { 1 }), "t"), T::ident("T")).with_attributes([A::base()])]),
+            ),
             ID::new((V::Public, "V"), TD::new([TS::vftable([v])])),
             ID::new((vis(a[12]), "E"), ED::new(T::ident("u32"), [ES::field("A"), b], e_attrs)),
         ])
